@@ -244,59 +244,7 @@ func runC14(r *Run) {
 	}
 
 	r.Rule("C14.R5")
-	if fn := r.Fn("(*trillian/ctfe.indirectIssuanceChainService).add"); fn != nil {
-		if c := r.OneCall(fn, "add:hash", "trillian/ctfe.issuanceChainHash"); c != nil {
-			r.ExpectArg(c, "add:hash.of", 0, "p2")
-		}
-		if c := r.OneCall(fn, "add:storage", "iface(trillian/ctfe/storage.IssuanceChainStorage).Add"); c != nil {
-			r.ExpectArg(c, "add:storage.key", 2, "trillian/ctfe.issuanceChainHash(p2)")
-			r.ExpectArg(c, "add:storage.chain", 3, "p2")
-		}
-		r.ErrorsGate(fn, "add:errors", "iface(trillian/ctfe/storage.IssuanceChainStorage).Add", 1)
-		var gos []ssa.Instruction
-		eachInstr(fn, func(in ssa.Instruction) {
-			if g, ok := in.(*ssa.Go); ok {
-				gos = append(gos, g)
-			}
-		})
-		r.Check("add:cache-fill", len(gos) == 1, r.FnPos(fn), fmt.Sprintf("%d detached cache fills", len(gos)))
-		if len(gos) == 1 {
-			r.MustGuard(fn, "add:cache-filled-only-after-store", "nil?iface(trillian/ctfe/storage.IssuanceChainStorage).Add(*)", "non", gos, "cache fill")
-			// the cache fill must come after the storage write on every path
-			add := CallsTo(fn, "iface(trillian/ctfe/storage.IssuanceChainStorage).Add")
-			if len(add) == 1 {
-				r.Check("add:store-dominates-cache-fill", add[0].Block().Dominates(gos[0].Block()) && add[0].Block() != gos[0].Block(), r.Where(gos[0]), "the storage write dominates the cache fill")
-			}
-			g := gos[0].(*ssa.Go)
-			r.Check("add:cache-fill.args", r.D.D(g.Call.Args[1]) == "trillian/ctfe.issuanceChainHash(p2)" && r.D.D(g.Call.Args[2]) == "p2", r.Where(g), "cache filled with (hash(chain), chain)")
-		}
-		// cache short-cut only when err == nil && entry != nil
-		get := "iface(trillian/ctfe/cache.IssuanceChainCache).Get(*)"
-		_, err := r.D.Table(fn, nil, nil, []RuleAtom{{Name: "err", Pat: "nil?" + get + "#1"}, {Name: "hit", Pat: "nil?" + get + "#0"}}, func(val map[string]string, reach *Reach, s Sigma) {
-			r.Valuations++
-			stored := false
-			for _, c := range CallsTo(fn, "iface(trillian/ctfe/storage.IssuanceChainStorage).Add") {
-				if reach.Has(c) {
-					stored = true
-				}
-			}
-			want := !(val["err"] == "nil" && val["hit"] == "non")
-			r.Check("add:shortcut[err="+val["err"]+",entry="+val["hit"]+"]", stored == want, r.FnPos(fn), fmt.Sprintf("storage write reached=%v, property wants %v", stored, want))
-		})
-		if err != nil {
-			r.Fail("add:shortcut", r.FnPos(fn), "undecided: "+err.Error())
-		}
-		for _, ret := range Returns(fn) {
-			if errKind(ret.Results[1]) == "nil" {
-				r.Check("add:returns-hash", r.D.D(ret.Results[0]) == "trillian/ctfe.issuanceChainHash(p2)", r.Where(ret), "returns hash(chain)")
-			}
-		}
-	}
-	if fn := r.Fn("trillian/ctfe.issuanceChainHash"); fn != nil {
-		for _, ret := range Returns(fn) {
-			r.Check("issuanceChainHash", r.D.D(ret.Results[0]) == "sha256.Sum256(p0)[:]", r.Where(ret), "hash = "+r.D.D(ret.Results[0]))
-		}
-	}
+	c14ChainStore(r)
 	if fn := r.Fn("(*trillian/ctfe.indirectIssuanceChainService).getByHash"); fn != nil {
 		find := r.OneCall(fn, "getByHash:find", "iface(trillian/ctfe/storage.IssuanceChainStorage).FindByKey")
 		if find != nil {
@@ -463,6 +411,64 @@ func c14Storage(r *Run) {
 			}
 			want := !c.Default && c.Value == 1062
 			r.Check(k+":error["+label+"]", swallowed == want, r.Where(ex[0]), fmt.Sprintf("driver error %s swallowed=%v (only 1062 'duplicate entry' means the chain is stored)", label, swallowed))
+		}
+	}
+}
+
+// c14ChainStore: add() — key, storage write, cache fill only after a successful write,
+// cache short-cut only on a real hit (C14.R5; shared with C06).
+func c14ChainStore(r *Run) {
+	if fn := r.Fn("(*trillian/ctfe.indirectIssuanceChainService).add"); fn != nil {
+		if c := r.OneCall(fn, "add:hash", "trillian/ctfe.issuanceChainHash"); c != nil {
+			r.ExpectArg(c, "add:hash.of", 0, "p2")
+		}
+		if c := r.OneCall(fn, "add:storage", "iface(trillian/ctfe/storage.IssuanceChainStorage).Add"); c != nil {
+			r.ExpectArg(c, "add:storage.key", 2, "trillian/ctfe.issuanceChainHash(p2)")
+			r.ExpectArg(c, "add:storage.chain", 3, "p2")
+		}
+		r.ErrorsGate(fn, "add:errors", "iface(trillian/ctfe/storage.IssuanceChainStorage).Add", 1)
+		var gos []ssa.Instruction
+		eachInstr(fn, func(in ssa.Instruction) {
+			if g, ok := in.(*ssa.Go); ok {
+				gos = append(gos, g)
+			}
+		})
+		r.Check("add:cache-fill", len(gos) == 1, r.FnPos(fn), fmt.Sprintf("%d detached cache fills", len(gos)))
+		if len(gos) == 1 {
+			r.MustGuard(fn, "add:cache-filled-only-after-store", "nil?iface(trillian/ctfe/storage.IssuanceChainStorage).Add(*)", "non", gos, "cache fill")
+			// the cache fill must come after the storage write on every path
+			add := CallsTo(fn, "iface(trillian/ctfe/storage.IssuanceChainStorage).Add")
+			if len(add) == 1 {
+				r.Check("add:store-dominates-cache-fill", add[0].Block().Dominates(gos[0].Block()) && add[0].Block() != gos[0].Block(), r.Where(gos[0]), "the storage write dominates the cache fill")
+			}
+			g := gos[0].(*ssa.Go)
+			r.Check("add:cache-fill.args", r.D.D(g.Call.Args[1]) == "trillian/ctfe.issuanceChainHash(p2)" && r.D.D(g.Call.Args[2]) == "p2", r.Where(g), "cache filled with (hash(chain), chain)")
+		}
+		// cache short-cut only when err == nil && entry != nil
+		get := "iface(trillian/ctfe/cache.IssuanceChainCache).Get(*)"
+		_, err := r.D.Table(fn, nil, nil, []RuleAtom{{Name: "err", Pat: "nil?" + get + "#1"}, {Name: "hit", Pat: "nil?" + get + "#0"}}, func(val map[string]string, reach *Reach, s Sigma) {
+			r.Valuations++
+			stored := false
+			for _, c := range CallsTo(fn, "iface(trillian/ctfe/storage.IssuanceChainStorage).Add") {
+				if reach.Has(c) {
+					stored = true
+				}
+			}
+			want := !(val["err"] == "nil" && val["hit"] == "non")
+			r.Check("add:shortcut[err="+val["err"]+",entry="+val["hit"]+"]", stored == want, r.FnPos(fn), fmt.Sprintf("storage write reached=%v, property wants %v", stored, want))
+		})
+		if err != nil {
+			r.Fail("add:shortcut", r.FnPos(fn), "undecided: "+err.Error())
+		}
+		for _, ret := range Returns(fn) {
+			if errKind(ret.Results[1]) == "nil" {
+				r.Check("add:returns-hash", r.D.D(ret.Results[0]) == "trillian/ctfe.issuanceChainHash(p2)", r.Where(ret), "returns hash(chain)")
+			}
+		}
+	}
+	if fn := r.Fn("trillian/ctfe.issuanceChainHash"); fn != nil {
+		for _, ret := range Returns(fn) {
+			r.Check("issuanceChainHash", r.D.D(ret.Results[0]) == "sha256.Sum256(p0)[:]", r.Where(ret), "hash = "+r.D.D(ret.Results[0]))
 		}
 	}
 }
